@@ -630,7 +630,26 @@ pub fn op_strategy(sp: OpSpace) -> BoxedStrategy<Op> {
 }
 
 pub fn ops_strategy(sp: OpSpace, max_len: usize) -> BoxedStrategy<Vec<Op>> {
-    proptest::collection::vec(op_strategy(sp), 0..=max_len).boxed()
+    // one ratio change in eight is issued twice in a row for the same target, with the ramp flag of the second call
+    // drawn afresh (ramp then step, step then ramp, ...): the second call must supersede the first completely
+    proptest::collection::vec((op_strategy(sp), any::<u8>()), 0..=max_len)
+        .prop_map(move |v| {
+            let mut out = Vec::with_capacity(v.len() + 2);
+            for (op, b) in v {
+                let again = match &op {
+                    Op::SetRatio { pos, relative, .. } if b < 32 && out.len() + 2 <= max_len => Some(Op::SetRatio { pos: *pos, relative: *relative, ramp: b & 1 == 1 }),
+                    _ => None,
+                };
+                if out.len() < max_len {
+                    out.push(op);
+                }
+                if let Some(a) = again {
+                    out.push(a);
+                }
+            }
+            out
+        })
+        .boxed()
 }
 
 /// work estimate (multiply-adds, sample generation and copies) for one processing call of
